@@ -214,6 +214,7 @@ func history(x *mon.Ctx) {
 				op := histOps[oi]
 				uid := [][]byte{nil, c.R.Bytes(1 + c.R.Intn(20))}[c.R.Intn(2)]
 				msg := c.R.Bytes(c.R.Intn(80))
+				uid, msg = adjacent(c.R, uid, msg)
 				dg := c.R.Bytes(32)
 				rd := newScript(c)
 				rd.MaxBytes = histBudget
